@@ -402,7 +402,26 @@ func (ex *Exec) unknownCall(st *State, ref string, recv *Val, args []*Val, resT 
 				resT = sig.Results()
 			}
 		}
-		return ex.freshResults(nil, resT, "res")
+		rs := ex.freshResults(nil, resT, "res")
+		// `assert callresults <formula over result>`: what the contract assumes of every
+		// value returned through a function value
+		for _, cl := range ex.contract.Clauses {
+			if cl.Kind == "assert" && strings.HasPrefix(cl.Text, "callresults ") && len(rs) > 0 {
+				e, err := parseSpecExpr(strings.TrimPrefix(cl.Text, "callresults "))
+				if err != nil {
+					ex.specErr("bad callresults clause: %v", err)
+					continue
+				}
+				sc := ex.ownCtx(ex.entry, token.NoPos)
+				sc.binds["result"] = rs[0]
+				ex.specDepth++
+				g := ex.eval(st, e, sc)
+				ex.specDepth--
+				st.assume(g.S)
+				ex.assumption("values returned through function values in " + ex.contract.Func + " satisfy: " + strings.TrimPrefix(cl.Text, "callresults "))
+			}
+		}
+		return rs
 	}
 	if ex.discovery == 0 {
 		ex.note("unmodelled call %s at %s: result fresh, heap havocked", ref, ex.pos(pos))
